@@ -174,7 +174,30 @@ def complete_report(out, name):
     return all(tr.names(c) == want[c] for c in ('kex', 'key', 'enc', 'mac'))
 
 
+def eval_ab(case):
+    """Engine B replay of a fault case: the real process over loopback TCP must print what engine A prints."""
+    from vlib import abcheck
+    name = case['arch']
+    a = ARCH[name]
+    spec = dict(a['spec'], faults=case['faults'])
+    ra, rb, peer_a, peer_b, eof = abcheck.run_both(spec, ['-n'] + list(a['argv']), timeout_opt=1)
+    fails = []
+    if ra.exc or rb.code == 255:
+        # a crash prints a traceback whose frames differ between the engines; only the status class is comparable
+        if (ra.code == 255) != (rb.code == 255):
+            raise RuntimeError('engines disagree on crashing: A %r B %r' % (ra.code, rb.code))
+    else:
+        abcheck.assert_agree(ra, rb, 'C09 %s %r' % (name, case['faults']))
+    if rb.code not in (0, 1, 2, 3):
+        fails.append(['undocumented-exit-status-%d-real-process' % rb.code, 'arch %s faults %r' % (name, case['faults'])])
+    if len(eof) < peer_b.nconn:
+        fails.append(['connection-not-closed-at-process-exit', 'arch %s faults %r: server saw EOF on %d of %d connections' % (name, case['faults'], len(eof), peer_b.nconn)])
+    return mkres(case, nt=True, classes=['engine-B', 'arch:' + name], fails=fails)
+
+
 def eval_case(case):
+    if case.get('kind') == 'ab':
+        return eval_ab(case)
     if case.get('kind') == 'fuzz':
         from vlib import fuzzrun
         return fuzzrun.eval_fuzz_case(case)
@@ -418,6 +441,13 @@ def run(ctx):
     for name in sorted(ARCH):
         allc += enumerate_faults(name, ctx.quick, ctx.rng)
     ctx.map(allc)
+    # engine-B sample: enumerated single-fault cases that real TCP can express (no refusal by connection index, no segmentation)
+    pool = [c for c in allc if not c.get('segment') and not c.get('clean') and ARCH[c['arch']].get('client') is None and c['arch'] not in ('ssh1-fallback',)
+            and all(f[2] not in ('refuse', 'timeout') and f[0] != 'connect' for f in c['faults'])]
+    ctx.rng.shuffle(pool)
+    ab = [dict(c, kind='ab') for c in pool[:(32 if ctx.quick else 400)]]
+    ctx.map(ab, chunk=1)
+    ctx.note(traces_validated_against_impl=len(ab))
     ctx.hyp('strat_mutation', 15000 if ctx.quick else 200000, label=1)
     ctx.hyp('strat_double', 8000 if ctx.quick else 100000, label=2)
     if not ctx.quick:
